@@ -151,7 +151,8 @@ theorem beginExec_cases (c : Cfg) (s : St) (ty : NType) (force rem : Bool) (e : 
         beginExec c s ty force rem e = (pre s ty, filteredEv ty rem)) ∨
     (gPeriod force e = false ∧ gBegin c ty force e = false ∧ gEnd c ty force e = false ∧ gType c ty force = true ∧
         beginExec c s ty force rem e =
-          ({ pre s ty with noMore := if ty == .recovery && decide (c.interval ≤ 0) then false else (pre s ty).noMore },
+          ({ pre s ty with noMore := if ty == .recovery && decide (c.interval ≤ 0) then false else (pre s ty).noMore,
+                           npu := if ty == .recovery then [] else (pre s ty).npu },
            filteredEv ty rem)) ∨
     (gPeriod force e = false ∧ gBegin c ty force e = false ∧ gEnd c ty force e = false ∧ gType c ty force = false ∧
         gState c ty force e = true ∧ beginExec c s ty force rem e = (pre s ty, filteredEv ty rem)) ∨
@@ -290,19 +291,26 @@ theorem filteredEv_cases (ty : NType) (rem : Bool) :
   unfold filteredEv
   cases ty <;> simp
 
-/-- The event of a call, and the state it leaves, in the two shapes the checkers care about. -/
+/-- The event of a call, and the state it leaves, in the two shapes the checkers care about.  A call that
+    stops at a notification-level guard keeps `notified_problem_users`, except a Recovery discarded by the
+    type filter (i.e. not withheld by the period), which clears it. -/
 theorem beginExec_split (c : Cfg) (s : St) (ty : NType) (force rem : Bool) (e : Env) :
-    ((beginExec c s ty force rem e).2 = filteredEv ty rem ∧ (beginExec c s ty force rem e).1.npu = s.npu ∧
+    ((beginExec c s ty force rem e).2 = filteredEv ty rem ∧
+      (beginExec c s ty force rem e).1.npu = (if ty == .recovery && !gPeriod force e then [] else s.npu) ∧
       (beginExec c s ty force rem e).1.lns = (pre s ty).lns) ∨
     (gPeriod force e = false ∧ gBegin c ty force e = false ∧ gEnd c ty force e = false ∧ gType c ty force = false ∧
       gState c ty force e = false ∧ beginExec c s ty force rem e = passedResult c s ty force rem e) := by
   have hn : (pre s ty).npu = s.npu := by unfold pre; cases (ty == NType.recovery) <;> simp
+  have hprob : ∀ {b : Bool}, (!force && ty == NType.problem && b) = true → (ty == NType.recovery) = false := by
+    intro b hb
+    simp only [Bool.and_eq_true, beq_iff_eq] at hb
+    rw [hb.1.2]; rfl
   rcases beginExec_cases c s ty force rem e with h | h | h | h | h | h
-  · left; rw [h.2]; exact ⟨rfl, hn, rfl⟩
-  · left; rw [h.2.2]; exact ⟨rfl, hn, rfl⟩
-  · left; rw [h.2.2.2]; exact ⟨rfl, hn, rfl⟩
-  · left; rw [h.2.2.2.2]; exact ⟨rfl, hn, rfl⟩
-  · left; rw [h.2.2.2.2.2]; exact ⟨rfl, hn, rfl⟩
+  · left; rw [h.2]; exact ⟨rfl, by simp [h.1, hn], rfl⟩
+  · left; rw [h.2.2]; exact ⟨rfl, by simp [hprob h.2.1, hn], rfl⟩
+  · left; rw [h.2.2.2]; exact ⟨rfl, by simp [hprob h.2.2.1, hn], rfl⟩
+  · left; rw [h.2.2.2.2]; exact ⟨rfl, by simp [h.1, hn], rfl⟩
+  · left; rw [h.2.2.2.2.2]; exact ⟨rfl, by simp [hprob h.2.2.2.2.1, hn], rfl⟩
   · right; exact h
 
 theorem delivery_begin (c : Cfg) (k : OpKind) (e : Env) (ty : NType) (force rem : Bool)
@@ -347,21 +355,29 @@ theorem delivery_begin (c : Cfg) (k : OpKind) (e : Env) (ty : NType) (force rem 
 /-- Every user on `notified_problem_users` was sent a Problem since the last Recovery. -/
 def RecInv (ps : List Nat) (s : St) : Prop := ∀ x ∈ s.npu, x ∈ ps
 
-/-- The side condition of F-C03: every Recovery got past the notification-level filters. -/
-def RecP (ev : Event) : Prop := ev.ty = .recovery → ev.passed = true
-
 theorem pre_npu (s : St) (ty : NType) : (pre s ty).npu = s.npu := by
   unfold pre; cases (ty == NType.recovery) <;> simp
 
-theorem recipients_begin (c : Cfg) (e : Env) (ty : NType) (force rem : Bool) :
-    Pres (recipientsEv e) RecInv RecP (beginStep c ty force rem e) := by
+theorem recipients_begin (c : Cfg) (k : OpKind) (e : Env) (ty : NType) (force rem : Bool) (hforce : forceOf k e = force) :
+    Pres (recipientsEv k e) RecInv (fun _ => True) (beginStep c ty force rem e) := by
   apply Pres_begin
   intro ps s hi
   rcases beginExec_split c s ty force rem e with ⟨h, hn, _⟩ | ⟨_, _, _, _, _, h⟩
   · rw [h]
-    rcases filteredEv_cases ty rem with ⟨_, h'⟩ | ⟨_, h'⟩
-    · rw [h']; simp only; intro x hx; rw [hn] at hx; exact hi x hx
-    · rw [h']; simp only; intro hp; exact absurd (hp rfl) (by simp)
+    rcases filteredEv_cases ty rem with ⟨hne, h'⟩ | ⟨hre, h'⟩
+    · rw [h']; simp only
+      have : (ty == NType.recovery) = false := by simpa using hne
+      intro x hx; rw [hn] at hx; simp only [this, Bool.false_and, Bool.false_eq_true, if_false] at hx; exact hi x hx
+    · rw [h']; simp only; intro _
+      subst hre
+      refine ⟨by simp [recipientsEv], ?_⟩
+      intro x hx
+      rw [hn] at hx
+      simp only [recipientsEv, recoveryWithheld, hforce, beq_self_eq_true, if_true, Bool.not_false, Bool.true_and]
+      simp only [gPeriod, beq_self_eq_true, Bool.true_and] at hx
+      cases hg : (!force && !e.periodOpen)
+      · simp [hg] at hx
+      · simp only [hg, Bool.not_true, Bool.false_eq_true, if_false, if_true] at hx ⊢; exact hi x hx
   · rw [h]
     simp only [passedResult]
     intro _
@@ -715,17 +731,17 @@ theorem delivery_op (c : Cfg) (g : Unit) (s : St) (op : Op) :
       · intro _; simp [tickSkipped] at hs; simp [hs.2]
       · simp [tickSkipped] at hs; simp [pausedFor]; intro hp; exact hs.1 hp
 
-theorem recipients_op (c : Cfg) (ps : List Nat) (s : St) (op : Op) (hi : RecInv ps s)
-    (hp : allEv RecP (applyOp c s op).2) :
+theorem recipients_op (c : Cfg) (ps : List Nat) (s : St) (op : Op) (hi : RecInv ps s) :
     (recipientsObs ps (applyOp c s op).2).1 = none ∧ RecInv (recipientsObs ps (applyOp c s op).2).2 (applyOp c s op).1 := by
   have hsup : ∀ (g : List Nat) (s : St) (sup : Sup), RecInv g s → RecInv g { s with sup := sup } := fun _ _ _ h => h
   have hnext : ∀ (g : List Nat) (s : St) (n : Int), RecInv g s → RecInv g { s with next := n } := fun _ _ _ h => h
   cases op with
   | send ty e =>
-    exact Pres_send c ty e (fun _ => recipients_begin c e ty e.force false) ps s hi hp
+    exact Pres_send c ty e (fun _ => recipients_begin c .send e ty e.force false (by simp [forceOf])) ps s hi (fun _ _ => trivial)
   | tick e =>
-    exact Pres_tick c e hsup (fun _ ty => recipients_begin c e ty false false)
-      (fun _ => Pres_reminderStep c e hnext (recipients_begin c e .problem false true)) ps s hi hp
+    exact Pres_tick c e hsup (fun _ ty => recipients_begin c .tick e ty false false (by simp [forceOf]))
+      (fun _ => Pres_reminderStep c e hnext (recipients_begin c .tick e .problem false true (by simp [forceOf]))) ps s hi
+      (fun _ _ => trivial)
 
 theorem noDup_op (c : Cfg) (ls : Nat → Option Nat) (s : St) (op : Op) (hi : DupInv ls s) :
     (noDupObs ls (applyOp c s op).2).1 = none ∧ DupInv (noDupObs ls (applyOp c s op).2).2 (applyOp c s op).1 := by
